@@ -141,10 +141,13 @@ def check_C02(tier, seed, replay=None):
     # every expression of the family is wrapped so that a labelled value reaches a block
     trees = [("lact", t, ("lit", (), False)) for t in trees] + trees
     sh = [("lit", (F.A,), False), ("cls", (F.A, F.B), (), False, False), ("any",), ("opt", ("lit", (F.A,), False))]
+    # a code predicate's boolean alone decides the match, also when the block returns an error with it
+    trees += [("seq", ("perr", neg, op), t) for neg in (False, True) for op in ("true", "false") for t in sh] + \
+             [("choice", ("seq", ("perr", neg, op), sh[0]), sh[2]) for neg in (False, True) for op in ("true", "false")]
     trees += [("shadow", a, b, c) for a in sh for b in sh for c in sh[:2]] + \
              [("shadow", a, b, ("lit", (), False), ("pred", False, "true")) for a in sh for b in sh]
     groups = F.groups_from_trees(trees)
-    cfg = F.RandCfg(depth=4, maxrules=3, leaves=F.LEAVES_UTF8 + F.LEAVES_FULL, preds=True, state=True, cloner=True)
+    cfg = F.RandCfg(depth=4, maxrules=3, leaves=F.LEAVES_UTF8 + F.LEAVES_FULL, preds=True, state=True, cloner=True, errs=0.25)
     groups += F.random_groups(seed, nrand // 2, cfg, gi0=len(groups) + 1)
     # the same label name in nested scopes (shadowing), labels directly over action groups
     cfg2 = F.RandCfg(depth=4, maxrules=2, leaves=F.LEAVES_FULL, preds=True, labpool=["k", "v", "w"])
@@ -433,6 +436,13 @@ def check_C14(tier, seed, replay=None):
     inputs = F.all_inputs([F.A, F.B, X], maxlen)
     options = [opt(), opt(maxexpr=5000)]
     div, tot = run.execute(groups, inputs, options, budget_plan(len(inputs)), FLAGSETS_2)
+    # the same semantics must hold for parsers generated with -optimize-grammar (values compared after normalisation)
+    run_o = Run("C14", tier, seed)
+    d_o, tot_o = run_o.execute(groups, inputs, options, budget_plan(len(inputs)), [["-optimize-grammar"]], cmp=dict(norm=True, errs=False),
+                               gen_flags_for=lambda pk: ["-alternate-entrypoints", ",".join(g.sname() for g in pk)])
+    for d in d_o:
+        run.violation(run_o.replay_path(d), "-optimize-grammar: df=%s gi=%d ii=%d" % (d["df"], d["gi"], d["ii"]))
+    tot = dict(n=tot["n"] + tot_o["n"], states=tot["states"] + tot_o["states"], transitions=tot["transitions"] + tot_o["transitions"])
     nthrow = sum(1 for g in groups if any(nn["k"] == "throw" for nn in g.nodes))
     return std_finish(run, div, tot, "hand-written probes + random grammars with nested recovery operators over 3 labels (shared labels, throws in called rules, inside repetitions and predicates, consuming / failing / nullable recovery expressions, with actions, predicates and state blocks) x all inputs over {a,b,x}; value, end offset, events and errors compared with PegRef's handler-stack semantics",
                       extra=dict(groups_with_throw=nthrow))
@@ -473,6 +483,10 @@ def check_C16(tier, seed, replay=None):
     rec_false = len(options)
     options.append(opt(maxexpr=7, recover=False))
     options.append(opt(maxexpr=3000, recover=False))
+    for nb in (2, 6, 11, 25):                       # "under every combination of the other runtime options": option order, Statistics, AllowInvalidUTF8
+        options.append(opt(maxexpr=nb, rev=True))
+        options.append(opt(maxexpr=nb, rev=True, stats=False, allowinv=True))
+        options.append(opt(maxexpr=nb, stats=False, debug=True))
     nopt = len(options)
     run.add_witnesses([f["id"] for f in findings.active("C16")], groups, inputs, options)
 
@@ -1342,6 +1356,7 @@ def c09_groups(seed, n, gi0=1):
             ((F.A, F.B, 99), (), False, False), ((F.A, F.B, 99, F.UA, 100), (), False, False), ((F.A, F.UA, 99), (), False, True)]
     for i in range(n):
         g = Gram(gi0 + i)
+        g.labpool, g.labrng = ["k", "v"], rng        # the same label name in the caller and in an inlined rule
         nr = rng.randint(2, 4)
 
         def term():
@@ -1378,6 +1393,8 @@ def c09_groups(seed, n, gi0=1):
             if k in ("opt", "not", "and"):
                 return g.un(k, expr(d - 1, refs))
             if k == "action":
+                if refs and rng.random() < 0.4:      # an action directly over a rule reference, inside a sequence with labels of its own
+                    return g.seq([g.label(term()), g.action(g.ref(rng.choice(refs))), g.pred(False, "true")])
                 return g.action(expr(d - 1, refs))
             return g.action(g.seq([g.label(expr(d - 1, refs)), expr(d - 1, refs)]))
         roots = [None] * nr
@@ -1387,8 +1404,11 @@ def c09_groups(seed, n, gi0=1):
                 # leaf rule (no references): a candidate for inlining, referenced from several places
                 kids = [term() for _ in range(rng.randint(1, 3))]
                 body = g.seq(kids) if len(kids) > 1 and rng.random() < 0.6 else (g.choice(kids) if len(kids) > 1 else kids[0])
-                if rng.random() < 0.3:
+                r_ = rng.random()
+                if r_ < 0.3:
                     body = g.action(body)
+                elif r_ < 0.5:       # a leaf rule that binds a label at its top level
+                    body = g.action(g.seq([g.label(term()), term()])) if rng.random() < 0.5 else g.seq([g.label(term()), term()])
                 roots[ri - 1] = body
             else:
                 roots[ri - 1] = expr(3, refs)
